@@ -181,7 +181,7 @@ _p("C09", modules=["keylog", "keylog_unbounded", "main_run", "demux", "container
    bounded=[{"function": "keylog_reader.get_keys_from_string with CPython's real str.replace / str.split (keylog.file_text)", "bound": "<= 3 lines of key-log text", "counted_as": "bounded cross-check; the loop itself is discharged without bound by keylog.unbounded.*"}],
    not_under_contract=["dpkt_dsb.Reader / DecryptionSecretBlock.unpack (DSB position and byte order)", "dpkt_dsb.DecryptionSecretBlock.unpack field decoding (dpkt's Packet.unpack assumed)"])
 
-_p("C18", modules=["main_run", "demux", "keylog", "keylog_unbounded"], level="other",
+_p("C18", modules=["main_run", "demux", "keylog", "keylog_unbounded", "quic_output"], level="other",
    technique="contract-based deductive verification of run() against recorder contracts + syntactic frame obligations",
    level_text="Determinism of sequential Python is the absence of a few things, each proved as an obligation: run() resets every module-level list before use (state of an earlier run "
               "cannot reach this one); run() opens exactly the input and output file and reads a key-log file iff -s is given (no cwd-relative defaults for -s); every (frame, ts) "
